@@ -835,13 +835,20 @@ func confirmHang(spec *Spec, prop, tier string, c json.RawMessage, params map[st
 			args = append(args, "-p", pk+"="+pv)
 		}
 		cmd := exec.Command(os.Args[0], args...)
+		var errOut bytes.Buffer
+		cmd.Stderr = &tailWriter{max: 4000, buf: &errOut}
 		if err := cmd.Start(); err != nil {
 			return false
 		}
 		done := make(chan error, 1)
 		go func() { done <- cmd.Wait() }()
 		select {
-		case <-done:
+		case err := <-done:
+			if err != nil && strings.Contains(errOut.String(), "all goroutines are asleep - deadlock") {
+				// the replay process has no other goroutine running, so the Go
+				// runtime itself reports that the case can never return
+				continue
+			}
 			return false // returned: not a hang
 		case <-time.After(time.Duration(hang) * time.Second):
 			cmd.Process.Kill()
